@@ -28,6 +28,7 @@ import (
 	"github.com/relex/slog-agent/base"
 	"github.com/relex/slog-agent/buffer/hybridbuffer"
 	"github.com/relex/slog-agent/defs"
+	"github.com/relex/slog-agent/output/fluentdforward"
 )
 
 type diskComp struct{}
@@ -35,6 +36,20 @@ type diskComp struct{}
 func init() { register("disk", func() Component { return &diskComp{} }) }
 
 func (d *diskComp) Name() string { return "disk" }
+
+// real chunk-id format (chunkidgen.go): %019d-%08d + suffix
+func diskChunkID(i int) string { return fmt.Sprintf("%019d-%08d.ff", int64(1700000000000000000), i) }
+
+func diskNum(name string) int {
+	if !strings.HasSuffix(name, ".ff") || !strings.HasPrefix(name, "1700000000000000000-") {
+		return -1
+	}
+	v, err := strconv.Atoi(strings.TrimSuffix(strings.TrimPrefix(name, "1700000000000000000-"), ".ff"))
+	if err != nil {
+		return -1
+	}
+	return v
+}
 
 type victimSpec struct {
 	Dir    string   `json:"dir"`
@@ -46,9 +61,14 @@ type victimSpec struct {
 }
 
 // runVictim is executed in the child process.
-func runVictim(specJSON string) {
+func runVictim(specPath string) {
 	var sp victimSpec
-	if err := json.Unmarshal([]byte(specJSON), &sp); err != nil {
+	raw, rerr := os.ReadFile(specPath)
+	if rerr != nil {
+		fmt.Fprintln(os.Stderr, "spec:", rerr)
+		os.Exit(3)
+	}
+	if err := json.Unmarshal(raw, &sp); err != nil {
 		fmt.Fprintln(os.Stderr, "bad spec:", err)
 		os.Exit(3)
 	}
@@ -57,11 +77,11 @@ func runVictim(specJSON string) {
 	cfg := &hybridbuffer.Config{RootPath: sp.Dir}
 	cfg.MaxBufSize.UnmarshalText([]byte("1GB"))
 	mf := promreg.NewMetricFactory("victim_", nil, nil)
-	nb := cfg.NewBufferer(logger.WithField("verif", "victim"), "", func(id string) bool { return strings.HasSuffix(id, ".ff") }, mf, false)
+	nb := cfg.NewBufferer(logger.WithField("verif", "victim"), "", (&fluentdforward.Config{}).MatchChunkID, mf, false)
 	_ = nb.RegisterNewConsumer()
 	nb.Start()
 	// primer: fills half of the window, so that every later chunk is unloaded to disk
-	nb.Accept(base.LogChunk{ID: bufChunkID(0), Data: []byte("primer")})
+	nb.Accept(base.LogChunk{ID: diskChunkID(0), Data: []byte("primer")})
 	waitFeeder("idle", "blocked")
 	for i, h := range sp.Chunks {
 		data := unhx(h)
@@ -75,7 +95,7 @@ func runVictim(specJSON string) {
 			}
 			limited = true
 		}
-		nb.Accept(base.LogChunk{ID: bufChunkID(sp.IDs[i]), Data: data})
+		nb.Accept(base.LogChunk{ID: diskChunkID(sp.IDs[i]), Data: data})
 		if limited {
 			syscall.Setrlimit(syscall.RLIMIT_FSIZE, &old)
 		}
@@ -105,7 +125,7 @@ func listDirFS(dir string) string {
 			tmp = 1
 			base = strings.TrimSuffix(name, ".tmp")
 		}
-		id := bufNum(base)
+		id := diskNum(base)
 		if id < 0 || !strings.HasSuffix(base, ".ff") {
 			items = append(items, item{1 << 30, 0, "stray:" + name})
 			continue
@@ -161,7 +181,9 @@ func (d *diskComp) Impl(c Case) (out []string) {
 				sp.Chunks = append(sp.Chunks, h)
 			}
 			js, _ := json.Marshal(sp)
-			cmd := exec.Command(os.Args[0], "-victim", string(js))
+			specPath := filepath.Join(root, "victim.json")
+			os.WriteFile(specPath, js, 0o644)
+			cmd := exec.Command(os.Args[0], "-victim", specPath)
 			cmd.Env = append(os.Environ(), "VERIF_KILL_AT=")
 			n := sp.Pos + 1
 			switch sp.Kind {
@@ -191,7 +213,7 @@ func (d *diskComp) Impl(c Case) (out []string) {
 			out = append(out, listDirFS(dir))
 		case "disk plant":
 			id := int(o.Ints[0])
-			p := filepath.Join(dir, bufChunkID(id))
+			p := filepath.Join(dir, diskChunkID(id))
 			switch o.Strs[0] {
 			case "zero":
 				os.WriteFile(p, nil, 0o644)
@@ -219,20 +241,23 @@ func diskRestart(dir string) string {
 	cfg := &hybridbuffer.Config{RootPath: dir}
 	cfg.MaxBufSize.UnmarshalText([]byte("1GB"))
 	mf := promreg.NewMetricFactory(fmt.Sprintf("vd%d_", bufSeq), nil, nil)
-	nb := cfg.NewBufferer(logger.WithField("verif", "disk"), "", func(id string) bool { return strings.HasSuffix(id, ".ff") }, mf, false)
+	nb := cfg.NewBufferer(logger.WithField("verif", "disk"), "", (&fluentdforward.Config{}).MatchChunkID, mf, false)
 	args := nb.RegisterNewConsumer()
 	nb.Start()
 	var fwd []string
 	for {
-		st := waitFeeder("idle", "blocked")
+		st := waitFeeder("idle", "blocked", "waiting", "gone", "saving")
 		if len(args.InputChannel) == 0 {
-			if st == "idle" || strings.HasPrefix(st, "timeout") {
-				break
+			if st != "blocked" {
+				break // idle, or the feeder has quit
 			}
 			continue
 		}
-		ch := <-args.InputChannel
-		fwd = append(fwd, fmt.Sprintf("%d:%s", bufNum(ch.ID), hx(ch.Data)))
+		ch, ok := <-args.InputChannel
+		if !ok {
+			break
+		}
+		fwd = append(fwd, fmt.Sprintf("%d:%s", diskNum(ch.ID), hx(ch.Data)))
 		args.OnChunkConsumed(ch)
 	}
 	m := dumpCounters(mf)
@@ -355,13 +380,15 @@ func (d *diskComp) Generate(rng *rand.Rand, n int, emit func(Case)) {
 			if i == pos {
 				s = size
 			}
-			strs = append(strs, mkChunk(i+1, s))
+			strs = append(strs, mkChunk((i+1)*10, s))
 		}
 		ops := []Op{{Name: "disk victim", Strs: strs, Ints: []int64{int64(arg), int64(pos)}}}
 		if plant {
-			ops = append(ops, Op{Name: "disk plant", Strs: []string{"zero"}, Ints: []int64{50}, Bytes: [][]byte{nil}})
-			ops = append(ops, Op{Name: "disk plant", Strs: []string{"dir"}, Ints: []int64{51}, Bytes: [][]byte{nil}})
-			ops = append(ops, Op{Name: "disk plant", Strs: []string{"tmp"}, Ints: []int64{52}, Bytes: [][]byte{[]byte("stale")}})
+			// bad files sorted before, between and after the real chunks
+			zid, did := []int64{5, 15, 500}[count%3], []int64{6, 16, 501}[(count/3)%3]
+			ops = append(ops, Op{Name: "disk plant", Strs: []string{"zero"}, Ints: []int64{zid}, Bytes: [][]byte{nil}})
+			ops = append(ops, Op{Name: "disk plant", Strs: []string{"dir"}, Ints: []int64{did}, Bytes: [][]byte{nil}})
+			ops = append(ops, Op{Name: "disk plant", Strs: []string{"tmp"}, Ints: []int64{502}, Bytes: [][]byte{[]byte("stale")}})
 		}
 		ops = append(ops, Op{Name: "disk restart"})
 		emit(Case{Ops: ops, Tag: "grid"})
